@@ -95,6 +95,7 @@ func (m *Machine) ActRestartProbe(t *rapid.T) {
 	for _, pi := range infos {
 		if pi.Running || !pi.Schedulable {
 			m.fail("C10", "after the restart pipeline %s is listed running=%v schedulable=%v", pi.Pipeline, pi.Running, pi.Schedulable)
+			m.fail("C15", "a runner started from the saved state lists pipeline %s as running=%v schedulable=%v although every job it reports is completed or canceled", pi.Pipeline, pi.Running, pi.Schedulable)
 		}
 	}
 	nWaiting, nRunning, nFinished, nFailedTask := 0, 0, 0, 0
